@@ -1247,6 +1247,17 @@ pub fn mutate(
                 sim.stat("fault.byz.duplicate");
                 continue;
             }
+            1003 => {
+                // the same answer twice, the second copy up to a few seconds later (what a
+                // re-asked, slow peer produces): other events run in between
+                let mut t0 = tag.clone();
+                t0.canonical = Some(data.clone());
+                out.push((proto, data.clone(), t0.clone()));
+                t0.note = format!("late duplicate:{}", 50 + rng.below(4_000));
+                out.push((proto, data.clone(), t0));
+                sim.stat("fault.late_duplicate");
+                continue;
+            }
             1001 => {
                 t.note = "dropped".into();
                 sim.stat("fault.byz.drop");
@@ -1420,7 +1431,10 @@ fn same_height_twin(sim: &Sim, data: &Bytes, rng: &mut Rng) -> Option<(Bytes, St
             let mut headers: Vec<packed::Header> = msg.headers().into_iter().collect();
             let numbers: Vec<u64> = headers.iter().map(|h| h.raw().number().unpack()).collect();
             let mut missing: Vec<Byte32> = msg.missing_block_hashes().into_iter().collect();
-            let pos = missing.iter().position(|h| by_hash(h).map(|b| numbers.contains(&b.number())).unwrap_or(false))?;
+            let last_number: u64 = msg.last_header().header().raw().number().unpack();
+            let pos = missing
+                .iter()
+                .position(|h| by_hash(h).map(|b| numbers.contains(&b.number()) || b.number() == last_number).unwrap_or(false))?;
             let twin = by_hash(&missing[pos])?;
             missing.remove(pos);
             headers.push(twin.view.data().header());
@@ -1452,10 +1466,10 @@ fn same_height_twin(sim: &Sim, data: &Bytes, rng: &mut Rng) -> Option<(Bytes, St
             let v1 = r.count_extra_fields() > 0;
             let msg = r.to_entity();
             let mut fbs: Vec<packed::FilteredBlock> = msg.filtered_blocks().into_iter().collect();
-            if fbs.is_empty() {
-                return None;
-            }
-            let numbers: Vec<u64> = fbs.iter().map(|f| f.header().raw().number().unpack()).collect();
+            let last = msg.last_header();
+            let last_number: u64 = last.header().raw().number().unpack();
+            let mut numbers: Vec<u64> = fbs.iter().map(|f| f.header().raw().number().unpack()).collect();
+            numbers.push(last_number);
             let mut missing: Vec<Byte32> = msg.missing_tx_hashes().into_iter().collect();
             // (position in `missing`, block id, tx index)
             let known: Vec<(usize, usize, u32)> = missing
@@ -1496,8 +1510,9 @@ fn same_height_twin(sim: &Sim, data: &Bytes, rng: &mut Rng) -> Option<(Bytes, St
                     // transaction alone
                     let (i, id, idx) = known[rng.usize_below(known.len())];
                     let tx = world.blocks[id].view.transactions()[idx as usize].clone();
-                    let bi = rng.usize_below(fbs.len());
-                    let real = fbs[bi].header();
+                    // (the delivered block's number, or the number of the last header itself)
+                    let bi = rng.usize_below(fbs.len() + 1);
+                    let real = if bi < fbs.len() { fbs[bi].header() } else { last.header() };
                     let real_block = world.blocks.iter().find(|b| b.hash() == real.calc_header_hash())?;
                     let witnesses_root = merkle_root(&[tx.witness_hash()]);
                     let root = merkle_root(&[merkle_root(&[tx.hash()]), witnesses_root.clone()]);
@@ -1519,7 +1534,11 @@ fn same_height_twin(sim: &Sim, data: &Bytes, rng: &mut Rng) -> Option<(Bytes, St
                         fb,
                         real_block.view.calc_uncles_hash(),
                         packed::BytesOpt::new_builder().set(real_block.view.extension()).build(),
-                        format!("made-up header at the number of delivered block {} committing to a transaction reported missing", bi),
+                        if bi < fbs.len() {
+                            format!("made-up header at the number of delivered block {} committing to a transaction reported missing", bi)
+                        } else {
+                            "made-up header at the number of the last header committing to a transaction reported missing".to_string()
+                        },
                         i,
                     )
                 }
